@@ -1154,3 +1154,121 @@ Section LkAgree.
     intros q t. apply exec_sim_strong.
   Qed.
 End LkAgree.
+
+(* ------------------------------------------------------------------------------------ *)
+(** * Threads encoding through the shared cache produce the pure result *)
+
+Lemma length_step_sys {P} deps mk : forall (s : sys P) i,
+  length (snd (step_sys P deps mk s i)) = length (snd s).
+Proof.
+  intros [c ts] i. unfold step_sys. cbn [fst snd]. destruct (nth_error ts i) as [t|]; [|reflexivity].
+  destruct (step_thread P deps mk c t). cbn [snd]. apply length_replace_nth.
+Qed.
+
+Lemma length_run_sched {P} deps mk : forall sched (s : sys P),
+  length (snd (run_sched P deps mk sched s)) = length (snd s).
+Proof.
+  induction sched as [|i sched IH]; intros s; cbn [run_sched fold_left]; [reflexivity|].
+  unfold run_sched in IH. rewrite IH. apply length_step_sys.
+Qed.
+
+Lemma map_combine_nth {A B C} (f : A * B -> C) (g : A -> C) : forall (la : list A) (lb : list B),
+  length lb = length la ->
+  (forall i a b, nth_error la i = Some a -> nth_error lb i = Some b -> f (a, b) = g a) ->
+  map f (combine la lb) = map g la.
+Proof.
+  induction la as [|a la IH]; intros lb Hlen H; destruct lb as [|b lb]; try discriminate; [reflexivity|].
+  cbn [combine map]. f_equal.
+  - apply (H O); reflexivity.
+  - apply IH; [cbn in Hlen; lia|]. intros i a' b' Ha Hb. apply (H (S i)); assumption.
+Qed.
+
+Lemma count_occ_repeat_same : forall i n, count_occ Nat.eq_dec (repeat i n) i = n.
+Proof.
+  intros i n. induction n as [|n IH]; [reflexivity|]. cbn [repeat count_occ].
+  destruct (Nat.eq_dec i i); [rewrite IH; reflexivity|congruence].
+Qed.
+
+Lemma count_occ_drain : forall l i n, In i l ->
+  (n <= count_occ Nat.eq_dec (concat (map (fun j => repeat j n) l)) i)%nat.
+Proof.
+  induction l as [|j l IH]; intros i n Hin; [destruct Hin|]. cbn [map concat]. rewrite count_occ_app.
+  destruct Hin as [->|Hin].
+  - rewrite count_occ_repeat_same. lia.
+  - specialize (IH i n Hin). lia.
+Qed.
+
+Lemma clookup_results {P} (pure : Z -> option P) : forall (L : list Z) (res : list (Z * P)),
+  map (fun r => (fst r, Some (snd r))) res = map (fun ty => (ty, pure ty)) L ->
+  forall ty, In ty L -> clookup res ty = pure ty.
+Proof.
+  induction L as [|ty0 L IH]; intros res H ty Hin; [destruct Hin|].
+  destruct res as [|[k p] res]; [discriminate|]. cbn [map fst snd] in H. inversion H; subst.
+  cbn [clookup]. destruct (ty0 =? ty) eqn:He.
+  - apply Z.eqb_eq in He. subst. congruence.
+  - destruct Hin as [->|Hin]; [rewrite Z.eqb_refl in He; discriminate|]. apply IH; assumption.
+Qed.
+
+Section Threads.
+  Variable tbl : ttable.
+  Variable rank : Z -> nat.
+  Variable N : nat.
+  Hypothesis rank_dec : forall ty d, In d (deps_of tbl ty) -> (rank d < rank ty)%nat.
+  Hypothesis rank_bound : forall ty, (rank ty < N)%nat.
+  Variable tag_of : Z -> option Z.
+
+  Notation pc := (purec tbl N).
+
+  (** The cache lookups of one message (top-level type, then the dynamic types met). *)
+  Definition msg_log (m : msg) : list Z :=
+    match m with (ty, tag, v) => e_log (fst (encode_top pc tag_of ty tag v (enc_new KBin))) end.
+
+  (** No lookup of the thread's messages hits a type whose plan cannot be built. *)
+  Definition msgs_good (ms : list msg) : Prop :=
+    forall m, In m ms -> forall ty, In ty (msg_log m) -> exists p, pc ty = Some p.
+
+  Definition thread_cost (ms : list msg) : nat := list_sum (map (sumc (costc tbl N)) (map msg_log ms)).
+
+  Lemma lookups_of_log : forall ms, lookups_of pc tag_of ms = map msg_log ms.
+  Proof. intros ms. unfold lookups_of. apply map_ext. intros [[ty tag] v]. reflexivity. Qed.
+
+  (** Any number of threads, any schedule (then every thread is given [dfuel] more turns,
+      enough to finish): each thread's encodings, made with whatever the cache handed it,
+      are exactly the encodings computed with the pure plans - the sequential result. *)
+  Theorem threads_encode_pure : forall (work : list (list msg)) (sched : list nat) (dfuel : nat),
+    (forall ms, In ms work -> msgs_good ms) ->
+    (forall ms, In ms work -> (thread_cost ms <= dfuel)%nat) ->
+    run_threads tbl tag_of N dfuel work sched = map (map (marshal pc tag_of)) work.
+  Proof.
+    intros work sched dfuel Hgood Hcost. unfold run_threads.
+    set (jobs := map (lookups_of (pure_plan tbl N) tag_of) work).
+    set (sch := sched ++ drain_sched (length work) dfuel).
+    apply map_combine_nth.
+    - rewrite length_run_sched. cbn [init_sys snd]. rewrite map_length. unfold jobs. rewrite map_length. reflexivity.
+    - intros i ms t Hms Ht.
+      assert (Hjob : nth_error jobs i = Some (map msg_log ms)).
+      { unfold jobs. rewrite nth_error_map. rewrite Hms. cbn [option_map]. rewrite <- lookups_of_log. reflexivity. }
+      assert (Hin : In ms work) by (eapply nth_error_In; exact Hms).
+      assert (Hi : (i < length work)%nat) by (apply nth_error_Some; congruence).
+      destruct (thread_terminates plan (deps_of tbl) (mk_of tbl) (costc tbl N)
+                  (costc_eq tbl rank N rank_dec rank_bound) jobs sch i (map msg_log ms) Hjob) as [res Hres].
+      { eapply Nat.le_trans; [apply (Hcost ms Hin)|]. unfold sch. rewrite count_occ_app.
+        pose proof (count_occ_drain (seq 0 (length work)) i dfuel) as Hd.
+        unfold drain_sched. assert (Hs : In i (seq 0 (length work))) by (apply in_seq; lia).
+        specialize (Hd Hs). lia. }
+      fold sch in Ht. rewrite Hres in Ht. inversion Ht; subst t. cbn [t_results].
+      assert (Hjobs_good : forall orig, In orig jobs -> forall ty, In ty (concat orig) -> has_pure plan pc ty).
+      { intros orig Ho ty Hty. unfold jobs in Ho. apply in_map_iff in Ho. destruct Ho as [ms' [<- Hms']].
+        rewrite lookups_of_log in Hty. apply in_concat in Hty. destruct Hty as [L [HL Hty]].
+        apply in_map_iff in HL. destruct HL as [m [<- Hm]]. apply (Hgood ms' Hms' m Hm ty Hty). }
+      pose proof (finished_thread_results plan (deps_of tbl) (mk_of tbl) pc
+                    (purec_mk tbl rank N rank_dec rank_bound) (purec_deps tbl rank N rank_dec rank_bound)
+                    jobs sch i (map msg_log ms) res Hjobs_good Hjob Hres) as Hmap.
+      apply map_ext_in. intros [[ty tag] v] Hm. unfold marshal.
+      rewrite (encode_top_agree pc (lk_of_results res) tag_of ty tag v (enc_new KBin)); [reflexivity|].
+      intros L HL ty' Hty'. cbn [enc_new e_log app] in HL. unfold lk_of_results. symmetry.
+      apply (clookup_results pc (concat (map msg_log ms)) res Hmap).
+      apply in_concat. exists (msg_log (ty, tag, v)). split; [apply in_map; exact Hm|].
+      unfold msg_log. rewrite HL. exact Hty'.
+  Qed.
+End Threads.
